@@ -2359,6 +2359,21 @@ def byte_segments(t):
     is_ = lambda name, *ps: any(_n.is_(name, p) for p in ps)
     while isinstance(t, tuple) and len(t) == 4 and t[0] == "call" and is_(t[1], "Iterator::collect", "IntoIterator::into_iter", "Iterator::copied", "Iterator::cloned", "slice::iter", "Vec::from", "slice::to_vec") and t[2]:
         t = t[2][0]
+    if isinstance(t, tuple) and len(t) == 4 and t[0] == "call" and isinstance(t[1], str) and (t[1].endswith("box_assume_init_into_vec_unsafe") or t[1].endswith("::into_vec")) and len(t[2]) == 1:
+        # `vec![a, b, c]`: a boxed array turned into a vector — the array's elements
+        arrs = []
+
+        def _find_arr(x, d=0):
+            if isinstance(x, tuple) and len(x) == 2 and x[0] == "array":
+                arrs.append(x)
+                return
+            if isinstance(x, (tuple, frozenset)) and d < 8:
+                for y in x:
+                    if isinstance(y, (tuple, frozenset)):
+                        _find_arr(y, d + 1)
+        _find_arr(t[2][0])
+        if len(arrs) == 1:
+            return [arrs[0]] if arrs[0][1] else []
     if t == ("default",) or t == ("const", b"") or (isinstance(t, tuple) and len(t) == 2 and t[0] == "array" and not t[1]):
         return []  # an empty sequence
     # a borrowed view of the same bytes
